@@ -88,8 +88,14 @@ impl FeelZone {
           if let Some(minutes_match) = captures.name("offMinutes") {
             if let Ok(minutes) = minutes_match.as_str().parse::<i32>() {
               let mut offset = 3600 * hours + 60 * minutes;
+              if minutes > 59 {
+                return None;
+              }
               if let Some(seconds_match) = captures.name("offSeconds") {
                 if let Ok(seconds) = seconds_match.as_str().parse::<i32>() {
+                  if seconds > 59 {
+                    return None;
+                  }
                   offset += seconds;
                 }
               }
